@@ -342,7 +342,7 @@ def dhex(x):
 
 def gen_exact(rng, tier):
     cases = []
-    N = 150 if tier == "quick" else 4000
+    N = 150 if tier == "quick" else 10000
     for i in range(N):
         kind = ["uniform", "uniform", "small", "sparse"][i % 4]
         A = rand_mat(rng, 4, 4, kind)
@@ -392,8 +392,8 @@ def gen_exact(rng, tier):
                       "qconj " + P_, "qinv " + P_, "qinv " + Q_, "qlen2 " + P_, "qdot %s %s" % (P_, Q_), "qrotrt " + P_, "qrotrt " + Q_,
                       "m4rot " + fmt(flat(qmat_ref(p))) if sum(x * x for x in p) % P == 1 else "qlen2 " + Q_])
     # linear systems
-    top = 12 if tier == "quick" else 20
-    reps = 3 if tier == "quick" else 40
+    top = 12 if tier == "quick" else 24
+    reps = 3 if tier == "quick" else 100
     for n in range(0, top + 1):
         for rep in range(reps if n <= 12 else max(2, reps // 8)):
             for kind in ("uniform", "sparse", "small", "permtri", "singular", "zero00"):
@@ -421,7 +421,7 @@ def gen_exact(rng, tier):
                         c.append("mmul %d %d %d %s" % (n, n, m, fmt(flat(A) + flat(X))))
                 cases.append(c)
     # over-determined (least squares through the normal equations) and products
-    for i in range(40 if tier == "quick" else 800):
+    for i in range(40 if tier == "quick" else 2500):
         c = rng.randrange(1, 9 if tier == "quick" else 13)
         r = c + rng.randrange(1, 5)
         m = rng.choice([1, 1, 2])
@@ -480,7 +480,7 @@ def fmat(rng, n, kind):
 
 def gen_float(rng, tier):
     cases = []
-    N = 200 if tier == "quick" else 6000
+    N = 200 if tier == "quick" else 15000
     kinds = ["uniform", "scaled", "dominant", "zerolead", "permtri", "integer"]
     for i in range(N):
         k = kinds[i % len(kinds)]
@@ -488,7 +488,7 @@ def gen_float(rng, tier):
         cases.append(c)
     top = 12
     for n in range(1, top + 1):
-        for rep in range(4 if tier == "quick" else 60):
+        for rep in range(4 if tier == "quick" else 150):
             for k in kinds:
                 A = fmat(rng, n, k)
                 m = rng.choice([1, 2, 3])
@@ -503,7 +503,7 @@ def gen_float(rng, tier):
         cases.append(["fsolve %d %d %d %s" % (r, c, m, " ".join(dhex(x) for x in flatf(A) + flatf(B)))])
     # rotations: random unit quaternions, a grid over axis/angle, 180-degree and near-identity ones
     qs = []
-    for i in range(150 if tier == "quick" else 5000):
+    for i in range(150 if tier == "quick" else 15000):
         qs.append([rng.gauss(0, 1) for _ in range(4)])
     for w in (0.0, 1e-9, 1e-4, 0.5, 1.0):
         for ax in ((1, 0, 0), (0, 1, 0), (0, 0, 1), (1, 1, 0), (1, 0, 1), (0, 1, 1), (1, 1, 1), (1, -1, 0), (-1, 2, 3), (1, 1e-8, 0)):
@@ -517,7 +517,7 @@ def gen_float(rng, tier):
             n = math.sqrt(sum(x * x for x in ax))
             qs.append([math.cos(ang / 2)] + [math.sin(ang / 2) * x / n for x in ax])
     # quaternions composed to sit on / next to a gimbal lock of some convention (middle angle = lock + d)
-    for i in range(300 if tier == "quick" else 12000):
+    for i in range(300 if tier == "quick" else 40000):
         if rng.random() < 0.5:
             a0, a1, a2 = rng.sample([0, 1, 2], 3)
             mid = rng.choice([math.pi / 2, -math.pi / 2])
@@ -539,7 +539,7 @@ def gen_float(rng, tier):
                 a0 = rng.uniform(-math.pi, math.pi)
                 a2 = rng.uniform(-math.pi, math.pi)
                 c.append("feuler %s%s %s %s %s" % (o, fx, dhex(a0), dhex(mid), dhex(a2)))
-            for rep in range(6 if tier == "quick" else 120):
+            for rep in range(6 if tier == "quick" else 400):
                 c.append("feuler %s%s %s" % (o, fx, " ".join(dhex(rng.uniform(-math.pi, math.pi)) for _ in range(3))))
             c.append("feuler %s%s %s %s %s" % (o, fx, dhex(0.0), dhex(0.0), dhex(0.0)))
             c.append("feuler %s%s %s %s %s" % (o, fx, dhex(math.pi / 2), dhex(math.pi / 2), dhex(math.pi / 2)))
